@@ -15,7 +15,7 @@ import sys
 import types
 
 TARGETS = {"geodepy.geodesy": ["vincdir", "vincinv"],
-           "geodepy.convert": ["xyz2llh", "llh2xyz"],
+           "geodepy.convert": ["xyz2llh", "llh2xyz", "geo2grid", "grid2geo"],
            "geodepy.transform": ["conform7", "conform14"]}
 STATE = {"depth": 0, "out": None, "test": ""}
 
@@ -35,6 +35,9 @@ def enc(v):
         return {"arr": [[float(x).hex() for x in row] for row in np.atleast_2d(v).tolist()], "shape": list(v.shape)}
     if t == "Ellipsoid":
         return {"ell": [float(v.semimaj).hex(), float(v.inversef).hex()]}
+    if t == "Projection":
+        return {"prj": [float(v.falseeast).hex(), float(v.falsenorth).hex(), float(v.cmscale).hex(), float(v.zonewidth).hex(),
+                        float(v.initialcm).hex()]}
     if t == "Transformation":
         sd = v.tf_sd
         return {"trans": {"from": str(v.from_datum), "to": str(v.to_datum),
